@@ -323,3 +323,23 @@ Proof.
       now rewrite <- !app_assoc. }
   apply G.
 Qed.
+
+(** KNOWN FINDING K02.  The hypothesis [once_ctx] cannot be dropped: a host function whose
+    signature combines the all-arguments extractor with another extractor that has already
+    resolved an argument evaluates that argument again.  Witness: va : (This, Arguments) called
+    in function style on one logged argument - one argument expression, two evaluations. *)
+Definition mixctx : ctx :=
+  add_function (add_function default_ctx $"tag" {| params := [XArg TyValue; XArg TyValue]; body := FHost (HArg 1) |})
+               $"va" {| params := [XThis TyValue; XArgs]; body := FHost (HArg 1) |}.
+Definition mixprog : expr := ECall $"va" None [ECall $"tag" None [ELit (VInt 1); ELit (VInt 10)]].
+Lemma once_refuted_for_mixed_arguments :
+  exists c e, no_comp e /\ ncalls e = 2 /\ loglen (eval c e) = 3 /\ ~ once_ctx c.
+Proof.
+  exists mixctx, mixprog. repeat split; try reflexivity.
+  intros H. inversion H as [|x l Hx _]. cbn in Hx. discriminate.
+Qed.
+(** ... while the same call in receiver style evaluates its receiver and argument once each. *)
+Example mixed_receiver_style_once :
+  loglen (eval mixctx (ECall $"va" (Some (ECall $"tag" None [ELit (VInt 1); ELit (VInt 10)]))
+                             [ECall $"tag" None [ELit (VInt 2); ELit (VInt 20)]])) = 3.
+Proof. reflexivity. Qed.
